@@ -53,11 +53,53 @@ L3 == <<
   Tx1(<<e7>>, <<>>, "plain", 5, 0 - 4096, 26),                           \* Y
   Tx1(<<e8>>, <<>>, "hl", 1, 1024, 27) >>                                \* Z
 
+\* L4: one hot commitment X with three creators (a, c, e) and three spenders (b, d, f), and a chain
+\* link Y between b and c.  a : U -> X, b : X -> Y, c : Y, V -> X is the re-creation of a spent
+\* commitment; the sub-families of L4 show every shape of ShapeOf: chain {a,b}, loop {b,c} (nothing
+\* but V remains), recreate {a,b,c} {a,b,e}, respend {a,b,d}, cycle {a,b,c,d} {a,e,b,d}, dup_output
+\* {a,c} {a,e} {a,c,e}, double_spend {b,d} {b,d,f}, dup_output_after_cut {a,c,e,b},
+\* double_spend_after_cut {a,b,d,f}, and with five transactions recreate_n / respend_n.
+fU == In(5, 1)   fX == In(4, 2)   fY == In(3, 4)   fV == In(2, 8)
+fZ == In(3, 16)  fW == In(7, 32)  fS == In(1, 64)  fT == In(2, 128)
+L4 == <<
+  Tx1(<<fU>>, <<O(fX)>>, "plain", 1, 0, 31),                             \* a creates X
+  Tx1(<<fX>>, <<O(fY)>>, "hl", 1, 256, 32),                              \* b spends X
+  Tx1(<<fY, fV>>, <<O(fX)>>, "nrd", 1, 512, 33),                         \* c spends b's output, re-creates X
+  Tx1(<<fX>>, <<O(fZ)>>, "plain", 1, 1024, 34),                          \* d spends X (again)
+  Tx2(<<fW>>, <<O(fX), O(fS)>>, "plain", 1, 7, "hl", 1, 2048, 35),       \* e creates X too (two kernels)
+  Tx1(<<fX>>, <<O(fT)>>, "hl", 2, 0 - 4096, 37) >>                       \* f spends X too
+
+\* L5: two hot commitments at once: p : U -> X, Y; q : X -> Z; r : Y -> Z2; s : Z, W -> X re-creates
+\* X; t : Z2, W2 -> Y re-creates Y.
+gU == In(9, 1)   gX == In(4, 2)   gY == In(4, 4)   gZ == In(3, 8)
+gZ2 == In(3, 16) gW == In(2, 32)  gW2 == In(3, 64)
+L5 == <<
+  Tx1(<<gU>>, <<O(gX), O(gY)>>, "plain", 1, 256, 41),                    \* p
+  Tx1(<<gX>>, <<O(gZ)>>, "nrd", 1, 0, 42),                               \* q
+  Tx1(<<gY>>, <<O(gZ2)>>, "hl", 1, 512, 43),                             \* r
+  Tx1(<<gZ, gW>>, <<O(gX)>>, "plain", 1, 0 - 4096, 44),                  \* s
+  Tx1(<<gZ2, gW2>>, <<O(gY)>>, "hl", 2, 1024, 45) >>                     \* t
+
+\* L6: a, b, c, d of L4 where c re-creates X with ANOTHER valid range proof than a's (pv = 1)
+OutPv(c, pv) == [v |-> c.v, r |-> c.r, cb |-> FALSE, pf |-> TRUE, pv |-> pv]
+L6 == <<
+  Tx1(<<fU>>, <<OutPv(fX, 0)>>, "plain", 1, 0, 31),
+  Tx1(<<fX>>, <<OutPv(fY, 0)>>, "hl", 1, 256, 32),
+  Tx1(<<fY, fV>>, <<OutPv(fX, 1)>>, "nrd", 1, 512, 33),
+  Tx1(<<fX>>, <<OutPv(fZ, 0)>>, "plain", 1, 1024, 34) >>
+
 LibrariesC == <<L1, L2>>
-LibrariesT == <<L1, L2, L3>>
+LibrariesT == <<L1, L2, L3, L4, L5, L6>>
+\* the shapes the libraries must exhibit with families of <= 4 (vacuity guard)
+WantedShapes == {"once", "chain", "recreate", "respend", "cycle", "dup_output", "double_spend",
+                 "dup_output_after_cut", "double_spend_after_cut"}
+ShapesCovered == phase = "root" => WantedShapes \subseteq UNION {ShapesOfLibrary(l) : l \in 1..Len(Libraries)}
 RewardsC == << [out |-> [v |-> 0, r |-> 8192, cb |-> TRUE, pf |-> TRUE], kern |-> K("cb", 0, 8192, 90)],
                [out |-> [v |-> 0, r |-> 8192, cb |-> TRUE, pf |-> TRUE], kern |-> K("cb", 0, 8192, 91)],
-               [out |-> [v |-> 0, r |-> 8192, cb |-> TRUE, pf |-> TRUE], kern |-> K("cb", 0, 8192, 92)] >>
+               [out |-> [v |-> 0, r |-> 8192, cb |-> TRUE, pf |-> TRUE], kern |-> K("cb", 0, 8192, 92)],
+               [out |-> [v |-> 0, r |-> 8192, cb |-> TRUE, pf |-> TRUE], kern |-> K("cb", 0, 8192, 93)],
+               [out |-> [v |-> 0, r |-> 8192, cb |-> TRUE, pf |-> TRUE], kern |-> K("cb", 0, 8192, 94)],
+               [out |-> [v |-> 0, r |-> 8192, cb |-> TRUE, pf |-> TRUE], kern |-> K("cb", 0, 8192, 95)] >>
 
 \* ---- direction A: one case per family with every plan and every de-aggregation
 RECURSIVE PlanJson(_)
@@ -67,17 +109,24 @@ Proj(t) == IF IsErr(t) THEN [err |-> TRUE]
 Case ==
   LET n == Len(fam)
       ps == SetToSeq(Plans(n))
-      cf == ConflictFree(Txs)
+      ag == Aggregable(Txs)
+      hot == SetToSeq({x \in Touched(Txs) : NIn(Txs, x) + NOut(Txs, x) >= 2})
       subsets == IF Independent(Txs) /\ n >= 2 THEN SetToSeq({S \in SUBSET (1..n) : S # {} /\ S # 1..n}) ELSE <<>>
       b == BlockOf(Txs, Rewards[lib], PrevOffset)
-  IN  [lib |-> lib, fam |-> fam, txs |-> Txs, conflict_free |-> cf, independent |-> Independent(Txs),
-       nondegenerate |-> NonDegenerate(Txs),
+  IN  [lib |-> lib, fam |-> fam, txs |-> Txs, conflict_free |-> ConflictFree(Txs), independent |-> Independent(Txs),
+       aggregable |-> ag, nondegenerate |-> NonDegenerate(Txs), proof_variants |-> ProofVariants(Txs),
+       shapes |-> SetToSeq(Shapes(Txs)),
+       hot |-> [i \in 1..Len(hot) |-> [c |-> hot[i], o |-> NOut(Txs, hot[i]), i |-> NIn(Txs, hot[i]),
+                                      shape |-> ShapeOf(NOut(Txs, hot[i]), NIn(Txs, hot[i]))]],
        plans |-> [i \in 1..Len(ps) |-> PlanJson(ps[i])],
-       expect |-> IF cf THEN <<Proj(All)>> ELSE [i \in 1..Len(ps) |-> Proj(Eval(ps[i], Txs))],
+       \* every plan is refused or yields `expect` (OrderGroupingIndependent)
+       plan_ok |-> [i \in 1..Len(ps) |-> ~IsErr(Eval(ps[i], Txs))],
+       parts_ok |-> [i \in 1..Len(ps) |-> PartsOk(ps[i], Txs)],
+       expect |-> Proj(All),
        deaggs |-> [i \in 1..Len(subsets) |->
                      [sub |-> SetToSortSeq(subsets[i], LT),
                       expect |-> Proj(Aggregate(Sub(Txs, (1..n) \ subsets[i])))]],
-       block |-> IF cf THEN [cb_out |-> b.body.outs[Len(b.body.outs)], cb_kern |-> Rewards[lib].kern,
+       block |-> IF ag THEN [cb_out |-> b.body.outs[Len(b.body.outs)], cb_kern |-> Rewards[lib].kern,
                              prev |-> PrevOffset, total |-> b.total, height |-> BlockHeight,
                              expect |-> Proj(b.body)]
                  ELSE [none |-> TRUE]]
